@@ -488,6 +488,9 @@ pub fn eval_declaration<'a>(
         Ok((expr, ann))
     } else {
         let mut rhs_ann = compose_annotations(decl.annotations())?;
+        // A reference or recursive declaration is evaluated once and shared by all its uses:
+        // its value must not depend on the annotations of the use that happens to come first.
+        let decl_ann = AnnRef::new(rhs_ann.clone());
         rhs_ann.extend(ann.as_ref().clone());
         let rhs_ann = AnnRef::new(rhs_ann);
 
@@ -506,7 +509,7 @@ pub fn eval_declaration<'a>(
                 #[cfg(oxlip_verif)]
                 verif::emit(|| format!("ref-none {}", ident));
                 ctx.refs.insert(ident.clone(), None);
-                let value = eval_any(ctx, decl.rhs(), rhs_ann.clone())?;
+                let value = eval_any(ctx, decl.rhs(), decl_ann)?;
                 // Overwrite the reference with the actual value.
                 #[cfg(oxlip_verif)]
                 verif::emit(|| format!("ref-some {}", ident));
